@@ -21,8 +21,21 @@ type alphabetOpts struct {
 	runs         []storeOp // extra macro operations
 }
 
+func dedupInts(xs []int) []int {
+	seen := map[int]bool{}
+	var out []int
+	for _, x := range xs {
+		if !seen[x] {
+			seen[x] = true
+			out = append(out, x)
+		}
+	}
+	return out
+}
+
 func storeAlphabet(o alphabetOpts) []storeOp {
 	var ops []storeOp
+	o.idxA, o.idxB = dedupInts(o.idxA), dedupInts(o.idxB)
 	for _, i := range o.idxA {
 		ops = append(ops, opAdd(0, i))
 	}
@@ -219,6 +232,40 @@ func init() {
 		Shards: func(tier string) []mc.Shard {
 			specs := storeSpecs("C04", []Kind{{K: 'D'}, {K: 'S'}, {K: 'P'}}, tier, 3, 4, func(sp *StoreScenarioSpec, o *alphabetOpts) {
 				sp.ModelClause = true
+			})
+			return shardsOfSpecs(specs)
+		},
+		ShardBudget: budget(60*time.Second, 12*time.Minute),
+	})
+}
+
+func collapsingKinds(tier string) []Kind {
+	ns := []int{1, 2, 3, 4, 8}
+	if tier == "thorough" {
+		ns = append(ns, 5, 16, 64, 2048)
+	}
+	var out []Kind
+	for _, n := range ns {
+		out = append(out, Kind{K: 'L', N: n}, Kind{K: 'H', N: n})
+	}
+	return out
+}
+
+func init() {
+	mc.Register(&mc.Property{
+		ID: "C05", Level: "model_checking",
+		Rule: "explicit-state BFS over operation histories on the real collapsing stores (both sides, bin limits N listed per scenario) paired with every other store kind and with collapsing stores of other limits; a case is one distinct concrete state; non-trivial when some store holds weight; distinct_nontrivial counts distinct abstract contents per scenario; every state is compared with the folding reference (exact content with every index beyond max-N+1 / min+N-1 folded into the edge), and must hold at most N bins over at most N consecutive indexes; a panic in any transition is a violation",
+		Assumptions: []string{
+			"weights are dyadic so every sum the reference computes is exact",
+			"histories are bounded by the stated depth below every seed (seeds include spans N-1, N, N+1, collapsed-then-cleared, and a partner wider than N merged into an empty receiver)",
+		},
+		Shards: func(tier string) []mc.Shard {
+			specs := storeSpecs("C05", collapsingKinds(tier), tier, 3, 4, func(sp *StoreScenarioSpec, o *alphabetOpts) {
+				sp.ModelClause = true
+				sp.SpanClause = true
+				if sp.Kinds[0].N >= 64 {
+					sp.Depth = 3
+				}
 			})
 			return shardsOfSpecs(specs)
 		},
